@@ -622,6 +622,22 @@ func finite(c Case) bool {
 	return c.PlanDelayMS >= 0 && c.PlanDelayMS <= 100
 }
 
+// bounded runs f and reports whether it finished within d; a clean-up step of
+// the harness itself (closing the collector, the final Shutdown) must never be
+// what makes a case hang.
+func bounded(d time.Duration, f func()) bool {
+	done := make(chan struct{})
+	go func() { defer close(done); f() }()
+	t := time.NewTimer(d)
+	defer t.Stop()
+	select {
+	case <-done:
+		return true
+	case <-t.C:
+		return false
+	}
+}
+
 func shutdownDeadline(c Case) time.Duration {
 	if c.ShutdownMS > 0 {
 		return time.Duration(c.ShutdownMS) * time.Millisecond
@@ -670,6 +686,7 @@ type observation struct {
 	shutdownAt       time.Duration // moment Shutdown() returned, -1 = never called / still blocked
 	shutdownCalledAt time.Duration // moment Shutdown() was called, -1 = never
 	abortOverrun     bool          // abort plan: Export was not back abortSlack after Shutdown's deadline
+	cleanupStuck     bool          // closing the collector / the final Shutdown did not finish in time (harness side)
 	planFired        bool
 	handled          []string
 	tag              string
@@ -846,10 +863,12 @@ func execute(c Case) (ob observation) {
 			waitPlan(blockMargin)
 		}
 		cancel()
-		sctx, sc := context.WithTimeout(context.Background(), 2*time.Second)
-		_ = h.shutdown(sctx)
-		sc()
-		stop()
+		ob.cleanupStuck = !bounded(5*time.Second, func() {
+			sctx, sc := context.WithTimeout(context.Background(), 2*time.Second)
+			_ = h.shutdown(sctx)
+			sc()
+		})
+		ob.cleanupStuck = !bounded(15*time.Second, stop) || ob.cleanupStuck
 	} else {
 		// give up on the blocked call (the case is a violation anyway):
 		// cancelling the context releases everything that honours it.
@@ -861,7 +880,7 @@ func execute(c Case) (ob observation) {
 		}
 		t.Stop()
 		waitPlan(2 * time.Second)
-		stop()
+		ob.cleanupStuck = !bounded(15*time.Second, stop)
 	}
 	mu.Lock()
 	defer mu.Unlock()
@@ -1173,6 +1192,7 @@ func run(c Case) ([]vk.Violation, vk.Info) {
 	vs := evaluate(c, ob)
 	info := classify(c, ob)
 	info.ClassIf(ob.jitter > quietJitter, "noisy_run")
+	info.ClassIf(ob.cleanupStuck, "harness_cleanup_step_abandoned_after_timeout")
 
 	// Upper-bound timing clauses ("arrives after ...") are reported only when
 	// three QUIET runs of the case (canary timers at most quietJitter late)
@@ -1203,6 +1223,9 @@ func run(c Case) ([]vk.Violation, vk.Info) {
 		}
 		for r := 1; r < 6 && len(suspect) > 0 && !confirmed(); r++ {
 			ob2 := execute(c)
+			if ob2.cleanupStuck {
+				break // the harness itself is struggling: no verdict on timing clauses from this machine state
+			}
 			if ob2.jitter > quietJitter {
 				info.Class("noisy_confirmation_run_discarded")
 				continue
@@ -1289,7 +1312,7 @@ func TestHTTPRetry(t *testing.T) {
 			"Retry-After >= 1 on a retryable answer in 1/16 of the cases (~25 per exporter in quick) (each costs >= 1 s once the unit defect is repaired); " + ruleCommon,
 		Quick: 150, Thorough: 1800,
 		Gen: genCase(false), Run: run, Known: known,
-		CaseTimeout: 90 * time.Second, ShrinkTime: 12 * time.Second,
+		CaseTimeout: 5 * time.Minute, ShrinkTime: 12 * time.Second,
 	})
 }
 
@@ -1299,6 +1322,6 @@ func TestGRPCRetry(t *testing.T) {
 		Rule:  "otlptracegrpc / otlpmetricgrpc / otlploggrpc: answers over {OK, OK+partial success, every codes.Code 1..16, slow, held} x RetryInfo {absent, 0, 30ms, 300ms}; " + ruleCommon,
 		Quick: 110, Thorough: 1300,
 		Gen: genCase(true), Run: run, Known: known,
-		CaseTimeout: 90 * time.Second, ShrinkTime: 12 * time.Second,
+		CaseTimeout: 5 * time.Minute, ShrinkTime: 12 * time.Second,
 	})
 }
